@@ -750,6 +750,11 @@ func (o *opsSeam) during(a *attempt) {
 		a.delayed = true
 		w.probes["yield-inside-operation"]++
 	}
+	if w.healed {
+		// faults have stopped while this operation was yielding: no delay is injected any more (the
+		// convergence bound was computed from the delays injected until then)
+		return
+	}
 	if w.delayPct > 0 && c.Choose(100) < w.delayPct {
 		d := time.Duration(1+c.Choose(1000)) * w.maxDelay / 1000
 		if d > w.longestDelay {
